@@ -15,9 +15,9 @@ from . import core
 # PINNED is the mechanism of the pinned commit: kept as a design-level canary — the
 # properties must FAIL on it (that is how the defects D6..D14 were exhibited by TLC).
 MECH = dict(MStopBeforeUpdate=True, MSqueeze=False, MTimesZeroFirst=True, MRollback=True,
-            MCleanClash=True, MEmptyLoads=True, MSaveValid=False, MFinalGuard=True)
+            MCleanClash=True, MEmptyLoads=True, MSaveValid=False, MFinalGuard=True, MResumeRepeats=True)
 PINNED = dict(MStopBeforeUpdate=False, MSqueeze=True, MTimesZeroFirst=False, MRollback=False,
-              MCleanClash=False, MEmptyLoads=False, MSaveValid=False, MFinalGuard=False)
+              MCleanClash=False, MEmptyLoads=False, MSaveValid=False, MFinalGuard=False, MResumeRepeats=False)
 
 INV_C05 = ["TypeOK", "FrameHoldsExactlyStepUpdates", "FrameTimeIsSumOfSteps", "FramesAtMultiplesAndEnd",
            "FramesSoFarAtMultiples", "RecordsOncePerStepInOrder", "FirstFrameHasNoRecords",
@@ -60,7 +60,7 @@ def model_cfg(bounds, mech, invariants, spec="Spec", extra=""):
 
 
 TRACE_BOUNDS = dict(Ks=[1], SolveTs=[0], SkipTs=[0], DTS=list(range(1, 9)), MaxFaults=4,
-                    FaultKinds=["KI", "Err"], OutModes=["temp", "path"], Foreigns=[[]], BadClasses=["none"])
+                    FaultKinds=["KI", "Err", "KIR"], OutModes=["temp", "path"], Foreigns=[[]], BadClasses=["none"])
 
 
 def trace_cfg(mech, invariants):
@@ -168,7 +168,7 @@ def describe_script(p):
             f" thermal_dts={p.get('tdts', [])} dts={p.get('simdts', [])} faults=[{fl}] probes={p.get('probes', 0)}"
             f" screening={p.get('screening', False)}" + (f" prior-run-same-path={p['prior']}" if p.get('prior') else "")
             + (f" output_file={p['outname']}" if p.get('outname', 'out.h5') != 'out.h5' else "")
-            + (" warnings-as-errors" if p.get("warn_error") else ""))
+            + (" warnings-as-errors" if p.get("warn_error") else "") + (" pause_on_interrupt" if p.get("pause") else ""))
 
 
 def fault_class(p):
